@@ -15,7 +15,11 @@ Ops:
   (model) / the reference describes; `<dev>` is `-` or letters of `lxyenm` (`Dev` flags in the order
   of the structure); `<flags>` eight 0/1: tags exact nest omitnil omitempty fullpath indent strict.
   Answers `panic`, `outside` (not in the modelled fragment) or the canonical tree.
-* `recomp <dev> <createKey> <history> <type> <tree>` and `roundtrip …`: see `Registry.lean`. -/
+* `recomp <b|-> <createKey> <history> <type> <tree>` — `Recompose(tree, new(type))` on a recomposer that
+  has seen the history; `b`: the code as it is (lookup by bare name), `-`: with the repair.
+  `<history>` is `-` or events joined by ` ; `: `R <type>` (RegisterComposer) or `C <type> | <tree>`
+  (an earlier Recompose); `<tree>` is the canonical text of `JV.render` (floats: hex of the decimal
+  text). Answers the value in token form, `error`, or `outside`. -/
 namespace OjgVerif.Reflect
 open OjgVerif
 
